@@ -87,6 +87,10 @@ type Driver struct {
 	Slots  int
 	OpDesc []string // human-readable description per op number
 	Kinds  []string
+	// OpFams[i] lists the slot families (indices into Kinds) operation i touches;
+	// FamOps is the inverse. Used to draw coherent histories (a "focus" family).
+	OpFams [][]int
+	FamOps [][]int
 }
 
 type gen struct {
@@ -560,6 +564,9 @@ func (g *gen) kindOps() {
 		g.add("elem store []string", fmt.Sprintf("if len(%s) > 0 {\n%s[b%%len(%s)] = %s\n}\nreturn hSS(%s)", ss("a"), ss("a"), ss("a"), S(kStr, "c"), ss("a")))
 		g.add("elem load []string", fmt.Sprintf("if len(%s) > 0 {\n%s = %s[b%%len(%s)]\n}\nreturn hStr(%s)", ss("a"), S(kStr, "c"), ss("a"), ss("a"), S(kStr, "c")))
 		g.add("reslice []string", fmt.Sprintf("s := %s\nif len(s) > 0 {\ni := b %% len(s)\n%s = s[i:]\n}\nreturn hSS(%s)", ss("b"), ss("a"), ss("a")))
+		g.add("copy() []string", fmt.Sprintf("n := copy(%s, %s)\nreturn hSS(%s) + i64(n)", ss("a"), ss("b"), ss("a")))
+		g.add("insert into []string with copy()", fmt.Sprintf("t := %s\nif len(t) > 0 && len(t) < 30 {\nt = append(t, \"\")\ni := b %% len(t)\ncopy(t[i+1:], t[i:])\nt[i] = %s\n%s = t\n}\nreturn hSS(%s)", ss("a"), S(kStr, "c"), ss("a"), ss("a")))
+		g.add("delete from []string with copy()", fmt.Sprintf("t := %s\nif len(t) > 1 {\ni := b %% len(t)\ncopy(t[i:], t[i+1:])\nt[len(t)-1] = \"\"\n%s = t[:len(t)-1]\n}\nreturn hSS(%s)", ss("a"), ss("a"), ss("a")))
 		g.add("make []string", fmt.Sprintf("%s = make([]string, b%%5)\nfor i := range %s {\n%s[i] = itoa(i+c)\n}\nreturn hSS(%s)", ss("a"), ss("a"), ss("a"), ss("a")))
 	}
 	if g.has(kMapIntStr) {
@@ -592,6 +599,7 @@ func (g *gen) kindOps() {
 		g.add("elem load []*Node", fmt.Sprintf("if len(%s) > 0 {\n%s = %s[b%%len(%s)]\n}\nreturn hN(%s)", s("a"), S(kNode, "c"), s("a"), s("a"), S(kNode, "c")))
 		g.add("elem store []*Node", fmt.Sprintf("if len(%s) > 0 {\n%s[b%%len(%s)] = %s\n}\nreturn hSN(%s)", s("a"), s("a"), s("a"), S(kNode, "c"), s("a")))
 		g.add("reslice []*Node", fmt.Sprintf("t := %s\nif len(t) > 0 {\ni := b %% len(t)\n%s = t[i:]\n}\nreturn hSN(%s)", s("b"), s("a"), s("a")))
+		g.add("copy() []*Node into fresh slice", fmt.Sprintf("t := make([]*Node, len(%s))\nn := copy(t, %s)\n%s = t\nreturn hSN(t) + i64(n)", s("b"), s("b"), s("a")))
 		g.add("remove first []*Node", fmt.Sprintf("t := %s\nif len(t) > 1 {\ncopy(t, t[1:])\nt[len(t)-1] = nil\n%s = t[:len(t)-1]\n}\nreturn hSN(%s)", s("a"), s("a"), s("a")))
 	}
 	if g.has(kMapIntNode) {
@@ -604,6 +612,7 @@ func (g *gen) kindOps() {
 		s := func(i string) string { return S(kSliceSliceInt, i) }
 		g.add("append []int to [][]int", fmt.Sprintf("if len(%s) < 16 {\n%s = append(%s, %s)\n}\nreturn hSSI(%s)", s("a"), s("a"), s("a"), si("b"), s("a")))
 		g.add("elem load [][]int", fmt.Sprintf("if len(%s) > 0 {\n%s = %s[b%%len(%s)]\n}\nreturn hSI(%s)", s("a"), si("c"), s("a"), s("a"), si("c")))
+		g.add("copy() [][]int", fmt.Sprintf("t := make([][]int, len(%s))\ncopy(t, %s)\n%s = t\nreturn hSSI(t)", s("b"), s("b"), s("a")))
 		g.add("inner append [][]int", fmt.Sprintf("if len(%s) > 0 {\ni := b %% len(%s)\n%s[i] = append(%s[i], c)\n}\nreturn hSSI(%s)", s("a"), s("a"), s("a"), s("a"), s("a")))
 	}
 	if g.has(kMapStrSliceInt) {
@@ -707,6 +716,13 @@ func (g *gen) formOps() {
 		g.add("nested field through pointer", fmt.Sprintf("p := %s\nif p != nil && p.next != nil {\n%s = p.next.name\n%s = p.next.items\n}\nreturn hStr(%s)", n("a"), str("b"), si("c"), str("b")))
 		g.add("pointer to field", fmt.Sprintf("p := %s\nif p != nil {\nq := &p.items\n*q = append(*q, c)\nif len(*q) > 40 {\n*q = nil\n}\nr := &p.name\n*r = *r + \"f\"\nif len(*r) > 100 {\n*r = \"\"\n}\n}\nreturn hN(p)", n("a")))
 	}
+	if g.has(kNode) {
+		n := func(i string) string { return S(kNode, i) }
+		g.add("field address reassigned in a loop (phi of pointers)", fmt.Sprintf("p := %s\nif p == nil {\nreturn -1\n}\nq := &p.val\nfor i := 0; i < 1+c%%3; i++ {\nif i%%2 == 0 {\nq = &p.rank\n} else {\nq = &p.val\n}\n*q = *q + 0\n}\nreturn i64(*q)", n("a")))
+		g.add("string field address through loop", fmt.Sprintf("p := %s\nif p == nil {\nreturn -1\n}\nq := &p.name\nr := &%s\nfor i := 0; i < 1+c%%3; i++ {\nt := q\nq = r\nr = t\n}\nx := *q\nreturn hStr(x) + hStr(*r)", n("a"), str("b")))
+		g.add("node pointer advanced in for{} with break", fmt.Sprintf("p := %s\ncnt := 0\nfor {\nif p == nil || cnt > 5 {\nbreak\n}\nq := &p.items\nif len(*q) > 30 {\n*q = (*q)[:2]\n}\np = p.next\ncnt++\n}\nreturn i64(cnt)", n("a")))
+		g.add("slice element address through loop", fmt.Sprintf("s := %s\nif len(s) == 0 {\nreturn -1\n}\nq := &s[0]\nfor i := range s {\nif s[i] > *q {\nq = &s[i]\n}\n}\n*q = *q + 1\nreturn i64(*q) + hSI(s)", si("a")))
+	}
 	if g.has(kStructVal) {
 		v := func(i string) string { return S(kStructVal, i) }
 		g.add("struct value through call and field of slot", fmt.Sprintf("%s = mkPair(b, %s.s, %s.v, %s.n)\nreturn hV(%s)", v("a"), v("b"), v("c"), v("b"), v("a")))
@@ -803,6 +819,17 @@ func (g *gen) emit() *Driver {
 	d := &Driver{Source: b.String(), NOps: len(g.cases), Slots: g.S, OpDesc: g.desc}
 	for _, k := range g.order {
 		d.Kinds = append(d.Kinds, g.fams[k].typ)
+	}
+	d.FamOps = make([][]int, len(g.order))
+	for i, body := range g.cases {
+		var fs []int
+		for fi, k := range g.order {
+			if strings.Contains(body, g.fams[k].name+"[") || strings.Contains(body, "_"+g.fams[k].name+"(") {
+				fs = append(fs, fi)
+				d.FamOps[fi] = append(d.FamOps[fi], i)
+			}
+		}
+		d.OpFams = append(d.OpFams, fs)
 	}
 	return d
 }
